@@ -7,6 +7,7 @@ pub mod c03;
 pub mod c04;
 pub mod c05;
 pub mod c06;
+pub mod c06b;
 pub mod c12s;
 pub mod c19;
 pub mod enc;
@@ -70,7 +71,7 @@ fn main() {
         }
         "C06" => {
             c06::run_all(&ctx);
-            ctx.finish(c06::RULE, &["thresholds are rigorous concentration bounds (Bernstein / Hoeffding, alpha = 2^-54 per test): detection power is limited to variance errors above roughly 10-30 % and per-bit biases above roughly 3 %", "public keys, LWE-related keys and the binary-FHE keys are built from the same internal routine (glwe_encrypt_sk_internal) and are not sampled separately here"], &[("variance_band_checked", 60), ("compressed", 40)])
+            ctx.finish(c06::RULE, &["thresholds are rigorous concentration bounds (Bernstein / Hoeffding, alpha = 2^-54 per test): detection power is limited to variance errors above roughly 10-30 % and per-bit biases above roughly 3 %", "sub-check other_routines_noise_mask_seeds needs no secret: with identical masks the exact difference of two bodies is e1 - e2; blind-rotation and circuit-bootstrapping keys are read back through their public serialisation", "the seed-compressed blind-rotation / circuit-bootstrapping keys are not sampled (their cells are GGSWCompressed, sampled in the first sub-check)"], &[("variance_band_checked", 60), ("compressed", 40), ("glwe_encrypt_pk", 8), ("circuit_bootstrapping_key", 8), ("lwe", 8)])
         }
         "C12" => {
             c12s::run_all(&ctx);
